@@ -58,6 +58,10 @@ CLAIMED = {
             'Generated daily/weekly schedules (all 49 day pairs, utc offsets, direct and via Configuration XML) sampled every 60 s over 3-4 weeks on an interposed clock, '
             'threaded like activation_service and stateless like the login test; decode_dow over all 866 496 strings of length <= 3.',
             'Local instants before 1970 are not generated.', '4/C24'),
+    'C32': ('E1', 'exploration', 'property-based testing (Hypothesis) tree round trip + path-lookup reference walk; coverage-guided fuzzing (libFuzzer) of the parser on bytes',
+            'Generated element trees serialised with random reference forms/quotes/line breaks are parsed and compared node by node (tags, attribute maps decoded once, text, order); '
+            'find() results for hit and near-miss paths are compared with a reference walk; XmlElement::Factory is fuzzed on byte strings <= 4 KiB under ASan/UBSan.',
+            'noextensions flag set; xi:include excluded (file access); text as a single run.', '4/C32'),
 }
 
 
